@@ -71,10 +71,13 @@ structure Input where
   tsaStoresNonEmpty : Bool        -- the listed tsa stores hold at least one certificate
   tsaRevocationError : Bool       -- the timestamping revocation validator returns an error
   tsaRevocation : List C05.R      -- its per-certificate results for the TSA chain, leaf first
+  tsaChainLen : Nat               -- number of certificates in the verified TSA chain (normally = tsaRevocation.length)
   deriving Repr, FromJson, ToJson
 
 /-- what the property observes: the two ValidationResults of `verifier.Verify` -/
 structure Obs where
+  evaluated : Bool                -- both results are present in the outcome (the scenario makes every earlier
+                                  -- validation pass: the chain's root is in the listed ca / signingAuthority store)
   expiryFailed : Bool             -- the `expiry` result carries an error
   authTsFailed : Bool             -- the `authenticTimestamp` result carries an error
   deriving DecidableEq, Repr, FromJson, ToJson
@@ -120,9 +123,10 @@ def rangeLoop (t acc : Int) : List Window → Bool
     else if !(decide (t + acc ≤ w.notAfter)) then true
     else rangeLoop t acc rest
 
-/-- step 5: `revocationFinalResult` over the validator's results for the TSA chain; anything but OK fails -/
-def tsaRevocationFails (rs : List C05.R) : Bool :=
-  match (C05.revocationFinal rs).1 with
+/-- step 5: `revocationFinalResult` over the validator's results for the TSA chain; anything but OK
+fails - including (fix 584fa1f) a result vector that does not have one entry per TSA certificate -/
+def tsaRevocationFails (chainLen : Nat) (rs : List C05.R) : Bool :=
+  match (C05.revocationFinalFor chainLen rs).1 with
   | .ok => false
   | .revoked => true                                        -- "timestamping certificate ... is revoked"
   | .unknown => true                                        -- "... revocation status is unknown"
@@ -147,7 +151,7 @@ def pipeline (i : Input) : Bool :=
     else if !k.chainRulesOk then true                       -- 3. ValidateTimestampingCertChain
     else if rangeLoop k.genTime (accuracyNs k) i.chain then true   -- 4. range inside every window
     else if i.tsaRevocationError then true                  -- 5. ValidateContext error
-    else tsaRevocationFails i.tsaRevocation
+    else tsaRevocationFails i.tsaChainLen i.tsaRevocation
 
 /-- `verifyTimestamp` (scheme notary.x509) -/
 def verifyTimestamp (i : Input) : Bool :=
@@ -160,7 +164,7 @@ def verifyAuthenticTimestamp (i : Input) : Bool :=
   | .signingAuthority => saLoop i.signingTime i.chain
 
 def run (i : Input) : Obs :=
-  { expiryFailed := verifyExpiry i.now i.expiry, authTsFailed := verifyAuthenticTimestamp i }
+  { evaluated := true, expiryFailed := verifyExpiry i.now i.expiry, authTsFailed := verifyAuthenticTimestamp i }
 
 /-! ### the property over observables (declarative: no loops, no order of checks) -/
 
@@ -192,12 +196,13 @@ def tokenGood (i : Input) : Bool :=
     k.parses && k.imprintMatches && i.tsaStoresLoad && i.tsaStoresNonEmpty && k.tsaRootListed && k.tsaCertOk &&
     k.chainRulesOk &&
     i.chain.all (fun w => w.containsRange (k.genTime - accuracyNs k) (k.genTime + accuracyNs k)) &&
-    !i.tsaRevocationError && i.tsaRevocation.all C05.R.good
+    !i.tsaRevocationError && i.tsaRevocation.length == i.tsaChainLen && i.tsaRevocation.all C05.R.good
 
 def clauses (i : Input) (o : Obs) : Clauses :=
   let x509 := i.scheme == .x509
   let passed := !o.authTsFailed
-  [ ("expired_signature_fails_expiry", !(expired i) || o.expiryFailed),
+  [ ("both_validations_evaluated", o.evaluated),
+    ("expired_signature_fails_expiry", !(expired i) || o.expiryFailed),
     ("unexpired_signature_passes_expiry", expired i || !o.expiryFailed),
     ("signing_authority_passes_iff_chain_valid_at_authentic_signing_time",
       x509 || (passed == i.chain.all (·.contains i.signingTime))),
